@@ -307,6 +307,24 @@ def run(ctx):
                 ok = ok and first is not None and first[1] in ("lengthfield", "countfield")
         if fi is not None:
             ctx.ob("C04.R5", fi, ok, "%s processes the length/count field first, then the payload (as the macro's expansion does)" % q, key="field first")
+    # every emitter closure a macro patches onto its result is either covered by the dedicated rule above or, at least, keeps the value
+    # convention of generated build code (an expression that evaluates to the object built -- what the enclosing Struct stores into the
+    # context): no branch of it is the constant None.  Anything else about an unlisted closure is undecided (reported as such).
+    DEDICATED = {"PascalString._emitparse", "PrefixedArray._emitparse", "PrefixedArray._emitbuild"}
+    for q, (fi, owner, lst0) in sorted(emit_funcs.items()):
+        if owner in M.classes or q in DEDICATED:
+            continue
+        lst = summaries.get(q, [])
+        if fi.name == "_emitbuild":
+            bad = []
+            for em, r, ts, fps in lst:
+                for p in fps.get("__template__", []):
+                    rv = p.retval
+                    consts = [x for x in N.walk(rv)] if rv is not None else []
+                    if p.returns and (rv == N.NONE or (rv is not None and rv[0] == "ite" and N.NONE in (rv[2], rv[3]))):
+                        bad.append(N.show(rv)[:80])
+            ctx.ob("C04.R5", fi, not bad, "%s: generated build code evaluates to the built object on every branch, never to None (%s)" % (q, bad[:1]), key="build value")
+        ctx.error("C04.R5 undecided: %s is an emitter closure patched by a macro for which no dedicated rule exists; its agreement with the macro's expansion is not decided" % q)
     ctx.floor("C04.R5", 20)
 
     # ---------------------------------------------------------------- R6 prologue names (shared with C11.R5)
